@@ -909,6 +909,17 @@ def _run(out, tier, prop, layers, levels, extra=None):
         cov.add(cases, st, hist, nstates, t1 - t0, t2 - t1, t3 - t2)
         del cases, rejects
     _coverage(out, tier, cov, layers, shorter)
+    # the report shows the first violations only: put one of every kind first (shortest input of each
+    # clause x datatype / call site group), then the rest
+    groups = {}
+    for v in out.violations:
+        groups.setdefault((tuple(v["clauses"]), v.get("callsite") or v.get("datatype") or v["kind"]), []).append(v)
+    for g in groups.values():
+        g.sort(key=lambda v: (len(v["input"]), v["input"]))
+    heads = [g[0] for _, g in sorted(groups.items(), key=lambda kv: str(kv[0]))]
+    rest = [v for _, g in sorted(groups.items(), key=lambda kv: str(kv[0])) for v in g[1:]]
+    out.violations[:] = heads + rest
+    out.add_cov(violation_groups={"%s @ %s" % (",".join(k[0]), k[1]): len(g) for k, g in sorted(groups.items(), key=lambda kv: str(kv[0]))})
 
 
 def check_c04(out, tier, seed):
